@@ -547,11 +547,15 @@ class ASTListener(ModelicaListener):
             if import_list is not None:
                 package_name = import_clause.components.pop()
                 # Append list of names to package_name to get fully qualified name(s)
-                # Skip the comma separators in import_list.children
-                for ident in import_list.children[::2]:
-                    qualified_name = package_name.concatenate(
-                        package_name.from_string(ident.getText())
-                    )
+                # The grammar nests the tail of the list: IDENT (',' import_list)*
+                def names(lst):
+                    result = [lst.IDENT().getText()]
+                    for sub in lst.import_list():
+                        result += names(sub)
+                    return result
+
+                for ident in names(import_list):
+                    qualified_name = package_name.concatenate(package_name.from_string(ident))
                     import_clause.components.append(qualified_name)
             elif ctx.getChildCount() > 3:
                 import_clause.unqualified = True
